@@ -19,6 +19,7 @@ import c08_util as U
 import c08_wide as W
 import c08_alpha as A
 import c08_prod as P
+import c08_open as OP
 
 MODDRV_EXTRA = os.path.join(HARNESS, "moddrv_c08.inc")
 BUILTIN_NAMES = ["INTEGER", "OCTET STRING", "BOOLEAN", "NULL", "SEQUENCE", "SEQUENCE OF", "SET OF", "CHOICE", "SET", "REAL",
@@ -33,6 +34,7 @@ FLAGSETS_QUICK = [
     ("plain", (), False, "lite", 3),
     ("bare", ("-fcompound-names", "-no-gen-PER", "-no-gen-OER"), False, "lite", 3),
     ("widebare", ("-fwide-types", "-no-gen-PER", "-no-gen-OER"), True, "lite", 3),
+    ("indirect", ("-fcompound-names", "-findirect-choice"), False, "choice", 1),       # constructed CHOICE alternatives stored by pointer
 ]
 # the flag sets module MA0 (permitted alphabets) is compiled under: with PER (code2value emitted) and without
 ALPHA_FLAGSETS = ("cn", "bare", "noper")
@@ -43,6 +45,8 @@ FLAGSETS_THOROUGH = [
     ("noper", ("-fcompound-names", "-no-gen-PER"), False, "main", 3),
     ("nooer", ("-fcompound-names", "-no-gen-OER"), False, "main", 3),
     ("widebare", ("-fwide-types", "-no-gen-PER", "-no-gen-OER"), True, "lite", 1),
+    ("indirect", ("-fcompound-names", "-findirect-choice"), False, "choice", 1),
+    ("indirectwide", ("-fcompound-names", "-findirect-choice", "-fwide-types"), True, "choice", 2),
 ]
 
 
@@ -499,7 +503,7 @@ def oracle_layer(run, xm, cases, name, opts, clamp_need):
             else:
                 shown += 1
                 if shown <= 6:           # vlib writes the first 20 violations of a run: leave room for the other layers
-                    run.violation("oracle:check_exact(%s)" % {"C08-strings": "strings", "C08-builtin": "builtin", "C08-sets": "sets"}.get(name, "wide"),
+                    run.violation("oracle:check_exact(%s)" % {"C08-strings": "strings", "C08-builtin": "builtin", "C08-sets": "sets", "C08-ptr": "ptr"}.get(name, "wide"),
                                   dict(replay, what="asn_check_constraints returned %s, the constraints say %s" % (ret, want), command_line=line, c=o[1][:300], message=full))
                 else:
                     run.count(name + "_further_mismatches_not_listed")
@@ -777,6 +781,26 @@ def utf8_leaf_layer(run, model, strings):
     run.count("utf8_leaf_lines", len(lines))
 
 
+def pointer_layer(run, xm, cases, tag, opts, clamp_need):
+    """module MR0 (lib/c08_open.py): constraints written on members that are stored by pointer, C against the Python
+    evaluation of every constraint at every nesting position.  Self-check: the generated member tables really hold the
+    by-pointer alternatives the module was written for (else the layer would test nothing and say so)."""
+    oracle_layer(run, xm, cases, "C08-ptr", opts, clamp_need)
+    if not xm.get("exe"):
+        return
+    ptr = OP.pointer_members(xm)
+    want = {"RF": ["not"], "RN": ["n"], "RS": ["v", "kids", "next", "o"]}
+    if "-findirect-choice" in opts:
+        want.update({"RF": ["and", "or", "not"], "RG": ["pair", "lst"], "RL": ["a", "b", "c", "e"], "RN": ["m", "n"]})
+    for tn, ms in sorted(want.items()):
+        got = [x.split(".")[-1].lower() for x in ptr.get(tn, [])]          # asn1c capitalises and / or / not (C++ tokens)
+        run.count("pointer_members_%s" % tag, len(got))
+        missing = [x for x in ms if x not in got]
+        if missing:
+            run.violation("harness:pointer-members", {"what": "module MR0 under `%s`: members %s of %s are expected to be stored by pointer, the generated table has ATF_POINTER on %s only"
+                                                             % (" ".join(opts), missing, tn, got), "module": xm["text"]}, no_input=True)
+
+
 def tick(what):
     if os.environ.get("VERIF_DEBUG"):
         log("[c08 %.1fs] %s" % (time.time() - T0, what))
@@ -796,7 +820,8 @@ def main(tier):
         g = Gen(rng)
         nm, nt = (8, 5) if tier == "quick" else (40, 6)
         hand = U.boundary_module("MC0")
-        bmods = U.boundary_modules(rng, tier)
+        bmods = U.boundary_modules(rng, tier) + [OP.open_union_module(rng, tier)]
+        rm, rcases = OP.ptr_module(rng, tier)
         gmods = [U.decorate_module(g.module("M%d" % i, nt), rng) for i in range(nm)]
         xm = U.string_module("MX0")
         cases = {m["name"]: module_cases(m, rng, tier) for m in [hand] + bmods + gmods}
@@ -815,9 +840,11 @@ def main(tier):
             # the modgen modules and the hand-made one reuse member names and need -fcompound-names;
             # the systematic ones are compiled under every flag set
             sel = {"all": [hand] + bmods + gmods, "main": [hand] + bmods + gmods[:2], "boundary": bmods,
-                   "lite": [U.lite_module(m) for m in bmods]}[which]
+                   "lite": [U.lite_module(m) for m in bmods], "choice": [OP.choice_part(m) for m in [hand] + bmods]}[which]
             sel = [dict(m) for m in sel]
             xs = [dict(xm), dict(wm), dict(pm)] if which in ("all", "main") else []
+            if which in ("all", "choice"):
+                xs.append(dict(rm))          # members stored by pointer: recursive types, and everything constructed under -findirect-choice
             if tag == "cn":
                 xs.append(dict(um))          # strings do not depend on -fwide-types
             if tag in ALPHA_FLAGSETS:
@@ -838,6 +865,8 @@ def main(tier):
                     oracle_layer(run, x, ucases, "C08-builtin", opts, clamp_need)
                     producer_layer(run, model, x, [c for i, c in enumerate(ucases) if tier != "quick" or (i + run.seed) % 3 == 0 or c["tn"] in ("UT", "UM")],
                                    "C08-producers(builtin)", opts, wide)
+                elif x["name"] == rm["name"]:
+                    pointer_layer(run, x, rcases, tag, opts, clamp_need)
                 elif x["name"] == pm["name"]:
                     oracle_layer(run, x, pcases, "C08-sets", opts, clamp_need)
                     producer_layer(run, model, x, pcases, "C08-producers(sets)", opts, wide)
@@ -859,7 +888,8 @@ def main(tier):
           "extraction: ExtrOcamlBasic only; OCaml 4.13.1; ocaml/drv_c08.ml (parser of the cty / value strings)",
           "lib/modgen.py (modules, independent X.680 tagging for the DER transport), lib/c08_util.py (decoration with unions/EXCEPT, cty strings, value and violation generators, Python reading of the Spec used to attribute mismatches to known findings, string oracle)",
           "harness/moddrv.c + harness/moddrv_c08.inc (`chkx`: canary-guarded buffers, `chke`: exact-size malloc under ASan), lib/modbuild.py; gcc + ASan/UBSan", "values reach the C as DER through ber_decode; a case is used only if DER -> structure -> DER is the identity",
-          "vsnprintf's contract (the model of the buffer is stated over it; the text is compared with the message obtained in a 4096-byte buffer)"]
+          "vsnprintf's contract (the model of the buffer is stated over it; the text is compared with the message obtained in a 4096-byte buffer)",
+          "lib/c08_open.py (module MBU: overlapping unions by shape x relation x order; module MR0: recursive types / -findirect-choice with its own DER encoder and Python reading of the Spec at every nesting position; reader of ATF_POINTER in the generated member tables)"]
     return run.finish("proof", (nthm, ndis), trusted_base=tb,
                       checker_cmd="make -C /verif all && coqc -Q coq A1 coq/Props/Properties_C08.v",
                       extra_cov={"theorems": names, "modules": nmods, "flag_sets": [" ".join(f[1]) or "(none)" for f in flagsets],
